@@ -301,7 +301,11 @@ def run(ctx):
                         return True
             return False
 
-        ok, path = cfg.must_happen_before_exit(f, writes)
+        eok = None
+        if k == "toggle":
+            from . import C11
+            eok = C11.one_letter_edge_ok(ctx, f, f.params[0]["name"] if f.params else "arg")
+        ok, path = cfg.must_happen_before_exit(f, writes, edge_ok=eok)
         ctx.check(ok, "R01.4", f, "consumes-observably", "%s::update_value can return (path B%s) without changing %s: the token is consumed with no effect" % (k, "->B".join(map(str, path or [])), short(fld)), f)
 
     # ---- R01.5
@@ -559,7 +563,8 @@ def _letter_accounting(tt):
             for x in conj:
                 bo = ir.as_binop(x)
                 sides = [fmt(ir.unwrap(bo[1])), fmt(ir.unwrap(bo[2]))] if bo and bo[0] in ("!=", "==", "<", ">", "<=", ">=") else []
-                if sides and name in sides and any(re.fullmatch(r"(?:%s)\.size\(\)" % LIST, s0) for s0 in sides):
+                # the number of letters of the token: the letter list's size(), or - R01.10: one entry per character behind the dash - the name's length minus one
+                if sides and name in sides and any(re.fullmatch(r"(?:%s)\.size\(\)" % LIST, s0) or re.fullmatch(r"\(\w+\.(name\(\)|name_)\.(size|length)\(\) - 1\)", s0) for s0 in sides):
                     # normalise to `acc OP size`; the accumulator can never exceed the number of letters, so `acc < size` is the
                     # mismatch as well, while `acc > size` can never hold
                     op = bo[0] if sides[0] == name else {"<": ">", ">": "<", "<=": ">=", ">=": "<="}.get(bo[0], bo[0])
